@@ -112,11 +112,17 @@ func WriteBodyChunked(w network.Writer, r io.Reader) error {
 
 	var err error
 	var n int
+	emptyReads := 0
 	for {
 		n, err = r.Read(buf)
 		if n == 0 {
 			if err == nil {
-				panic("BUG: io.Reader returned 0, nil")
+				// nothing happened (io.Reader allows it, io.Pipe does it for an empty
+				// Write on the other side): read again, but not for ever
+				if emptyReads++; emptyReads < 100 {
+					continue
+				}
+				err = io.ErrNoProgress
 			}
 
 			if !errors.Is(err, io.EOF) {
@@ -131,6 +137,7 @@ func WriteBodyChunked(w network.Writer, r io.Reader) error {
 			err = nil
 			break
 		}
+		emptyReads = 0
 		if err = WriteChunk(w, buf[:n], true); err != nil {
 			break
 		}
